@@ -1010,6 +1010,30 @@ func (c *fnCtx) target(l ast.Expr, st *ast.AssignStmt, t *fnType) *fnVar {
 
 func (c *fnCtx) assign1(st *ast.AssignStmt, l, r ast.Expr, k func() term) term {
 	var pre []fnBind
+	// v := (*uint64)(unsafe.Pointer(&data[i])): the address of a word inside a byte slice
+	if id, ok := l.(*ast.Ident); ok && st.Tok == token.DEFINE && id.Obj != nil && c.wordPtrDecl[id.Obj] != nil && wordPtrExpr(r) != nil {
+		ix := wordPtrExpr(r)
+		x := c.plainVar(ix.X)
+		if x == nil || x.typ.k != "slice" || x.typ.elem.k != "byte" || x.noElems {
+			c.lostAt(st, "word pointer into %s (must be a list-represented []byte variable)", src(ix.X))
+		}
+		idx, _ := c.expr(ix.Index, &pre)
+		t := c.tmp()
+		pre = append(pre, fnBind{pat: t, e: idx, isLet: true})
+		bindRaw(&pre, "_", "go_get "+x.name+" "+t) // &data[i] checks the index
+		c.wordPtrIdx[id.Obj] = t
+		return wrap(pre, k())
+	}
+	// *(*uint64)(unsafe.Pointer(&data[i])) = e   and   *v = e
+	if ix := c.wordTarget(l); ix != nil && st.Tok == token.ASSIGN {
+		x, idx := c.wordAccess(l, ix, &pre)
+		e, et := c.expr(r, &pre)
+		if !et.isNum() {
+			c.lostAt(st, "word store of %s", src(r))
+		}
+		bindRaw(&pre, x.name, "go_store64 "+x.name+" "+paren(idx)+" "+paren(e))
+		return wrap(pre, k())
+	}
 	// x.f = e on a struct-valued variable or field
 	if sel, ok := l.(*ast.SelectorExpr); ok && !c.isRecv(sel.X) {
 		return c.structStore(st, sel, r, k)
